@@ -70,7 +70,7 @@ def judge(case, obs):
     for ci, cspec in enumerate(case["callers"]):
         k = 0
         for c in cspec["cmds"]:
-            if c["k"] in ("sleep", "progress"):
+            if c["k"] in ("sleep", "progress", "power"):
                 continue
             cmd = sc.build_cmd(c)
             key = "%d:%d" % sc.frame_key(cmd)
@@ -123,7 +123,7 @@ def judge(case, obs):
     # a caller that completed normally must have all its frames on the wire
     for ci, (cspec, rec) in enumerate(zip(case["callers"], obs["callers"])):
         if rec["status"] == "ok":
-            n = len([c for c in cspec["cmds"] if c["k"] not in ("sleep", "progress")])
+            n = len([c for c in cspec["cmds"] if c["k"] not in ("sleep", "progress", "power")])
             if len([x for x in seqtags if x[0] == ci]) != n:
                 out.append(("C15:%s:frames-missing-or-duplicated" % drv, "caller %d completed with %d commands but %d of its frames are on the wire"
                             % (ci, n, len([x for x in seqtags if x[0] == ci]))))
@@ -192,6 +192,8 @@ def case_strategy(draw, driver=None):
                 item = draw(st.sampled_from([{"k": "sleep", "d": 0.001}, {"k": "sleep", "d": 0.03}, {"k": "sleep", "d": 0.25},
                                              {"k": "progress"}]))
                 cmds.insert(draw(st.integers(0, len(cmds))), dict(item))
+        if kind == "txn" and drv == "tridonic" and draw(st.integers(0, 2)) == 0:
+            cmds.insert(draw(st.integers(0, len(cmds))), {"k": "power", "on": draw(st.booleans())})
         c = {"kind": kind, "cmds": cmds, "t0": draw(st.sampled_from([0.0, 0.0, 0.002, 0.02, 0.045, 0.08, 0.15, 0.3]))}
         r = draw(st.integers(0, 9))
         if kind in ("seq", "txn") and r == 0:
@@ -225,6 +227,8 @@ def features(case):
             f.append("cancellation")
         if c.get("bad_close"):
             f.append("sequence-whose-cleanup-raises")
+        if any(x["k"] == "power" for x in c["cmds"]):
+            f.append("power-supply-switched-inside-a-transaction")
         if c.get("before_connect"):
             f.append("caller-started-before-connect")
         if any(x["k"] in DT for x in c["cmds"]):
@@ -237,7 +241,7 @@ def features(case):
 
 
 def nontrivial(case):
-    multi = any(len([x for x in c["cmds"] if x["k"] not in ("sleep", "progress")]) > 1 for c in case["callers"])
+    multi = any(len([x for x in c["cmds"] if x["k"] not in ("sleep", "progress", "power")]) > 1 for c in case["callers"])
     dt = any(x["k"] in DT for c in case["callers"] for x in c["cmds"])
     return bool(_LAST.get("overlap")) and (multi or dt)
 
